@@ -174,7 +174,9 @@ CXX_BASE = ['-std=c++17', '-O1', '-g0', '-ffp-contract=off', '-fno-strict-aliasi
 if os.environ.get('VERIF_COVERAGE'):
     # tools/coverage.py: every harness is built with gcov instrumentation (separate cache entries: the flags are part of the key);
     # the .gcda files land next to the cached binaries and are summed per library source line
-    CXX_BASE = CXX_BASE + ['--coverage']
+    COVERAGE = ['--coverage']
+else:
+    COVERAGE = []
 VARIANTS = {
     'plain': [],
     'z': ['-DUSINGZ'],
@@ -192,7 +194,7 @@ def build_cpp(ctx, src, variant='plain', extra=(), compiler='g++', timeout=600):
     not recompiled by each of the 20 checks, and any edit to /repo forces a rebuild."""
     spath = src if os.path.isabs(src) else os.path.join(VERIF, 'harness', src)
     hfiles = sorted(glob.glob(os.path.join(VERIF, 'harness', '*.h')))
-    flags = CXX_BASE + VARIANTS[variant] + list(extra)
+    flags = CXX_BASE + VARIANTS[variant] + list(extra) + ([] if variant == 'tsan' else COVERAGE)   # gcov counters race by design
     key = sha(repo_lib_hash(), read(spath), *[read(h) for h in hfiles], compiler, *flags)[:32]
     out = os.path.join(CACHE, 'bin', '%s.%s.%s' % (os.path.basename(src).replace('.cpp', ''), variant, key))
     os.makedirs(os.path.dirname(out), exist_ok=True)
